@@ -130,7 +130,7 @@ def body_under(case):
     mag = np.abs(X) @ np.abs(sv.Ap).T + np.abs(sv.basep)
     check(np.all(np.abs(Bp - model) <= 1e-9 * mag + 1e-300), "under:prediction", "B_pred is not the model's capture of X")
     if kind not in ("min", "max"):
-        pairs = rows_sharing_a_solution(B, X, sv.lb, sv.ub, sv.Ap)
+        pairs = rows_sharing_a_solution(B, X, sv.lb, sv.ub, sv.Ap, scale=sv.extent)
         check(not pairs, "under:rows-share-a-solution", f"rows {pairs} have different targets but bit-identical intensities (option {kind})")
     labs = sv.labels() + [f"opt:{kind}", f"entry:{case['entry']}", "W" if W is not None else "noW"] + (["ramp-rows"] if any("ramp" in r["kind"] for r in case["rows"]) else []) + (["proportional-sources"] if case.get("proportional") else [])
     goal = goal_fn(kind, opt)
